@@ -59,6 +59,46 @@ class Result:
         self.distribution[key] = self.distribution.get(key, 0) + n
 
 
+def generic_replay(plug, prop, payload):
+    """Replay for plug-ins without their own `replay`: every random choice of a run derives from
+    (seed, property), so re-running the plug-in's streams with the recorded seed and tier on the
+    current tree regenerates the recorded input; report whether the recorded failure (same
+    description) or, for a broken tie, the same stream disagreement shows again.
+    exit 1: reproduced, exit 0: no longer reproduces."""
+    ctx = Ctx(prop, payload.get("tier", "quick"), int(payload.get("seed", 0)))
+    try:
+        res = plug.run(ctx)
+    except Exception as exc:
+        traceback.print_exc()
+        print(f"replay: harness aborted ({type(exc).__name__}); recorded kind={payload.get('kind')}")
+        ctx.close()
+        return 1
+    ctx.close()
+    if payload.get("kind") == "failing-input":
+        want = payload["failure"].get("what")
+        hits = [f for f in res.failures if f.get("what") == want]
+        if not hits:  # same stream, different witness text
+            key = str(want)[:40]
+            hits = [f for f in res.failures if str(f.get("what"))[:40] == key]
+        for f in hits[:3]:
+            print("replay: reproduced:", json.dumps(f, default=str)[:1500])
+        if not hits:
+            print(f"replay: recorded failure no longer reproduces ({len(res.failures)} other failures)")
+        return 1 if hits else 0
+    want = {(d.get("kind"), d.get("stream"), d.get("decl")) for d in payload.get("no_longer_checks", [])}
+    got = {("correspondence", d.get("stream"), None) for d in res.disagreements}
+    both = want & got
+    for k in sorted(map(str, both))[:5]:
+        print("replay: correspondence still broken:", k)
+    proofs = [d for d in payload.get("no_longer_checks", []) if d.get("kind") in ("proof", "translator")]
+    if proofs:
+        print("replay: recorded proof/translator breakage is re-checked by running the check itself "
+              "(lake build): " + ", ".join(str(d.get("decl") or d.get("name")) for d in proofs[:5]))
+    if not both and not proofs:
+        print("replay: recorded correspondence breakage no longer reproduces")
+    return 1 if both else 0
+
+
 def main():
     ap = argparse.ArgumentParser()
     ap.add_argument("prop")
@@ -80,7 +120,10 @@ def main():
     if args.replay:
         with open(args.replay) as f:
             payload = json.load(f)
-        rc = plug.replay(ctx, payload) if hasattr(plug, "replay") else 2
+        if hasattr(plug, "replay"):
+            rc = plug.replay(ctx, payload)
+        else:
+            rc = generic_replay(plug, prop, payload)
         ctx.close()
         return rc
 
@@ -190,12 +233,14 @@ def main():
         violations = len(new_failures)
         f0 = new_failures[0]
         path = common.write_replay(prop, {"property": prop, "kind": "failing-input", "failure": f0,
+                                          "seed": seed, "tier": args.tier,
                                           "tie_broken": ctx.tie_broken[:20],
                                           "other_failures": new_failures[1:10]})
         lines.append(f"VIOLATION property={prop} replay={os.path.relpath(path, common.VERIF)}")
     elif ctx.tie_broken:
         violations = 1
         path = common.write_replay(prop, {"property": prop, "kind": "no-failing-input-found",
+                                          "seed": seed, "tier": args.tier,
                                           "no_longer_checks": ctx.tie_broken[:40]})
         lines.append(f"VIOLATION property={prop} replay={os.path.relpath(path, common.VERIF)} no-failing-input-found")
 
